@@ -72,6 +72,7 @@ def run(ck):
                 # the failing entry in a second context
                 contexts = [dict(window=(None, None), tests=healthy()), dict(window=(t(1), t(4)), tests={sid: [entry]})]
                 check_run(ck, fe, tname, fname, 'second-context', table, contexts, base_map, entry, sid)
+    xarray_detached_variable(ck)
     ck.floor('C18.survivors', 200)
 
 
@@ -99,3 +100,35 @@ def check_run(ck, fe, tname, fname, where, table, contexts, base_map, entry, sid
         if k in got:
             equal_flags(ck, 'C18.survivors', f'{fe}:{fname}:healthy-result-changed', f'healthy {k[0]}:{k[2]}', StreamOutcome(r[4]),
                         f'{label} {k[0]}:{k[2]}', StreamOutcome(got[k][4]), label)
+
+
+def xarray_detached_variable(ck):
+    """XarrayStream: a variable on its own dimension (no time / depth / position associated) listed after a variable that has them.
+    Tests that need time cannot run on it and must drop out; its other tests must get no foreign axis."""
+    from ..streams_h import expected_direct
+    from .c05 import compare_run
+    for n_c in (3, 5):
+        table = Table(5, streams=('a',), missing={'a': {2}})
+        table.extra_vars = {'c': n_c}
+        for order in (('a', 'c'), ('c', 'a')):
+            tests = {'a': ['gross', 'roc', 'flat'], 'c': ['gross', 'spike', 'flat', 'roc']}
+            contexts = [dict(window=(None, None), tests={k: tests[k] for k in order})]
+            run = run_frontend(ck.runner, 'xarray', table, make_config_source(contexts))
+            expected = expected_direct(ck.runner, table, contexts)
+            label = f'xarray[detached variable of length {n_c}; order {order}]'
+            if run.error is not None:
+                ck.violate('C18.completes', f'xarray:detached-variable:raises-{run.error.exc.tname}', f'{label}: raises {run.error.exc}')
+                continue
+            got = {(r[0], r[2]) for r in run.results}
+            want = {(sid, test) for (ci, sid, mod, test), (rows, d) in expected.items() if d is not None and d.kind == 'return'}
+            if n_c == 5:
+                # same length as the time axis: the stream documents that it then borrows the axis ("the user asked for it")
+                want |= {('c', 'flat_line_test'), ('c', 'rate_of_change_test')}
+            ck.ob('C18.dropped', label, got == want, key='xarray:detached-variable:result-set',
+                  what=f'{label}: results {sorted(got)}, expected {sorted(want)} (a test whose time input is not available must drop out)')
+            for r in run.results:
+                if r[0] == 'c' and n_c != 5:
+                    cr = r[5]
+                    tin = cr.attrs.get('tinp')
+                    ck.ob('C18.survivors', f'{label} c:{r[2]} tinp', len(tin) == 0, key='xarray:detached-variable:foreign-axis',
+                          what=f'{label}: the result for c:{r[2]} carries a time axis of another variable ({len(tin)} entries)')
